@@ -388,6 +388,13 @@ class Program:
         for m in self.modules.values():
             for ci in m.classes.values():
                 ci.mro = mro(ci)
+                # class attributes bound to module-level functions are
+                # methods:   gate = tensor_network_ag_gate
+                for an, av in list(ci.attrs.items()):
+                    if isinstance(av, (ast.Name, ast.Attribute)) and an not in ci.methods:
+                        r = self.resolve_expr(m, av)
+                        if isinstance(r, FuncInfo):
+                            ci.methods[an] = r
 
     # ------------------------------------------------------------ resolution
     def lookup(self, m, name, _depth=0):
